@@ -5,12 +5,12 @@
     input) / printf / write / errprintf / errwrite; the "readline-out" variant (code before
     fix 3cfd005: ReadLine recorded OUTPUT mode) must violate BannerCount.
 (R) every operation sequence on a real Repeater over real Input / Output objects: both
-    transcripts must be the specified sequence of banners and payloads."""
+    transcripts must be the specified sequence of banners and payloads (every payload contains a '%')."""
 import json
 import vlib
 
 MANIFEST = dict(technique='extension', text='', note='')
-CFG = 'SPECIFICATION Spec\nCONSTANTS\n  MaxOps = %d\n  Variant = "%s"\nINVARIANT BannerCount\nCHECK_DEADLOCK FALSE\n'
+CFG = 'SPECIFICATION Spec\nCONSTANTS\n  MaxOps = %d\n  Variant = "%s"\nINVARIANTS BannerCount Verbatim Verbatim2\nCHECK_DEADLOCK FALSE\n'
 
 
 def run(ctx):
@@ -21,6 +21,10 @@ def run(ctx):
     ctx.cov['states'] -= rv['distinct']; ctx.cov['transitions'] -= rv['generated']
     if 'BannerCount' not in rv['violated']:
         raise vlib.Infra('spec self-test failed: the readline-out variant keeps the banner count')
+    rv = ctx.tlc('ext', 'Repeater', 'mc.cfg', workers=2, timeout=300, files={'mc.cfg': CFG % (3, 'reformat')}, name='reformat variant (must violate Verbatim)')
+    ctx.cov['states'] -= rv['distinct']; ctx.cov['transitions'] -= rv['generated']
+    if not (set(rv['violated']) & {'Verbatim', 'Verbatim2'}):
+        raise vlib.Infra('spec self-test failed: the reformat variant keeps the payloads verbatim')
     shards, n, taken = vlib.shard_lines(ctx, r['out'], 8, marker='\\"k\\":\\"rep\\"')
     m = vlib.run_sharded(ctx, lambda p: ['repcases', '--in', p], shards)
     ctx.cov['replay'].append(dict(what='operation sequences on a real Repeater', model_cases=n, executed=m['executed'], failures=m['failures_by_key']))
